@@ -56,7 +56,7 @@ size_t zzPowerMod_deep(size_t n, size_t m)
 {
 	const size_t no = O_OF_W(n);
 	const size_t r_deep = zmCreate_deep(no);
-	return no + 
+	return no + zmCreate_keep(no) +
 		utilMax(2,
 			r_deep,
 			qrPower_deep(n, m, r_deep));
